@@ -208,6 +208,16 @@ fn preemptions_before(points: &[Point], i: usize) -> usize {
         .count()
 }
 
+thread_local! {
+    static DEADLINE: std::cell::Cell<Option<std::time::Instant>> = const { std::cell::Cell::new(None) };
+}
+
+/// Wall-clock cap for the explorations started by the calling thread (None = no cap). When
+/// it passes, `explore` stops and reports `capped` (the run is then not called exhaustive).
+pub fn set_deadline(d: Option<std::time::Instant>) {
+    DEADLINE.with(|c| c.set(d));
+}
+
 pub struct IlvStats {
     pub schedules: u64,
     pub max_points: usize,
@@ -226,7 +236,7 @@ pub fn explore<S: Send + Sync + 'static, R: Send + Clone + 'static>(
     let mut stats = IlvStats { schedules: 0, max_points: 0, bound_completed: bound, capped: false };
     let mut stack: Vec<Vec<usize>> = vec![vec![]];
     while let Some(prefix) = stack.pop() {
-        if stats.schedules >= max_schedules {
+        if stats.schedules >= max_schedules || DEADLINE.with(|c| c.get()).map_or(false, |d| std::time::Instant::now() > d) {
             stats.capped = true;
             stats.bound_completed = None;
             break;
